@@ -255,7 +255,7 @@ fn deep_pop(insns: &[Insn]) -> bool {
 
 pub fn run_stack_histories(ctx: &Ctx) {
     let openq = Quirks::from_keys(|k| ctx.quirk_open(k));
-    let total: u32 = ctx.tier.pick(3_200, 100_000);
+    let total: u32 = ctx.tier.pick(24_000, 400_000);
     let shards = 16u32;
     let results: Vec<(Local, Option<(Seq, String)>)> = (0..shards)
         .into_par_iter()
